@@ -171,6 +171,7 @@ def stepLine (s : St) (line : String) : St × String :=
     | none => (s, "bad-op")
   | ["setup", "fpd", eq, ge, tmn, tmx, axeq] =>
     (s, if fromProjDataSetUp (B eq) (B ge) (B tmn) (B tmx) (B axeq) then "ok" else "fail")
+  | ["use", su, ge] => (s, if checkUse (B su) (B ge) then "ok" else "err")
   | ["chainctor", c1, c2] => (s, if chainCtorOk (Q c1) (Q c2) then "ok" else "err")
   | op :: id :: _route :: seg :: view :: ax :: tof :: tmin :: vals =>
     if op == "apply" || op == "undo" then
